@@ -9,7 +9,8 @@ git -C /repo worktree remove --force "$L/repo" 2>/dev/null; rm -rf "$L"; mkdir -
 git -C /repo worktree add -q --detach "$L/repo" "${LAB_BASE:-HEAD}" || exit 2
 cp /repo/Cargo.lock "$L/repo/" 2>/dev/null
 git -C "$L/repo" apply "$P" || { echo "$N: patch does not apply"; git -C /repo worktree remove --force "$L/repo"; rm -rf "$L"; exit 2; }
-cp -r /verif/check /verif/harness /verif/surface /verif/tools /verif/known_findings.json "$L/verif/"
+V=${LAB_VERIF:-$(cat /tmp/lab/SRC 2>/dev/null || echo /verif)}
+cp -r $V/check $V/harness $V/surface $V/tools $V/known_findings.json "$L/verif/"
 mkdir -p "$L/verif/evidence"
 sed -i "s|path = \"/repo\"|path = \"$L/repo\"|" "$L/verif/harness/pvmc/Cargo.toml" "$L/verif/harness/pvmc-surface/Cargo.toml"
 for C in "$@"; do
